@@ -237,6 +237,10 @@ pub fn eval_amount(
         let (key, amt): (ClassKey, i128) = match term {
             Term::Ada(q) => (None, q_val(q, args)?),
             Term::Tok(i, q) => (p.tokens[*i].key(), q_val(q, args)?),
+            Term::AnyTok(i, name, q) => match args.get(&name.to_lowercase()) {
+                Some(ArgValue::Bytes(b)) => (Some((p.tokens[*i].policy.clone(), b.clone())), q_val(q, args)?),
+                _ => return None,
+            },
             Term::Fees => (None, fee?),
             Term::MinUtxo(_) => (None, min_utxo?),
             Term::Input(_) => return None,
